@@ -257,7 +257,10 @@ class Report:
                     rep = self.replayer(ob)
                 except Exception:
                     rep = {"reproduced": None, "replay_error": traceback.format_exc()}
-            if rep is not None and rep.get("reproduced") is False:
+            uses_uf = any(str(k).startswith("py_") for k in (ob.get("model") or {}))
+            if rep is not None and (rep.get("reproduced") is False or (rep.get("reproduced") is None and uses_uf)):
+                # the solver's counter-model does not reproduce on the real code (or rests on an uninterpreted operator and
+                # no failing input exists among the candidates): engine over-approximation, undecided - never a violation
                 spurious.append((ob, rep))
                 continue
             violations.append((ob, rep))
